@@ -330,6 +330,55 @@ def check_groups(name, tbl, prim, items, ec, s, e, stop_at_size_change, mtu):
 
 
 # ---------------------------------------------------------------------------------------------
+# declarations whose last attribute handle is 0xFFFF (excluded by the model's ServerDecl.WF.fits):
+# hand-written server types in harness/attdisc.cpp, real code only (no model counterpart)
+# ---------------------------------------------------------------------------------------------
+TOP_SERVERS = [(0, "service attribute_handle<0xFFFD>: handles 1,2,3,0xFFFD,0xFFFE,0xFFFF", True),
+               (1, "service attribute_handle<0xFFFC>: handles 1,2,3,0xFFFC,0xFFFD,0xFFFE (control)", False),
+               (2, "characteristic attribute_handle<0xFFFE>: handles 1,2,3,4,0xFFFE,0xFFFF", True),
+               (3, "characteristic attribute_handle<0xFFFD>: handles 1,2,3,4,0xFFFD,0xFFFE (control)", False)]
+
+
+def top_handle_probe(ctx, pid, monitor, res):
+    """the property evaluated on the real code for declarations that reach handle 0xFFFF; failures
+    get the key <pid>:last-handle-0xffff:<request>:<symptom>; the controls (last handle 0xFFFE)
+    must be clean under the ordinary keys"""
+    heads = ["topserver %d" % k for k, _, _ in TOP_SERVERS]
+    t_impl = ctx.run_impl([[h, "table"] for h in heads])
+    sessions, meta = [], []
+    for (k, name, wraps), h, r in zip(TOP_SERVERS, heads, t_impl):
+        if r["crash"] or len(r["out"]) < 2 or not r["out"][0].startswith("ok"):
+            res.failures.append({"key": "%s:top-handle-server-unusable" % pid, "what": "%s: %s" % (name, r["crash"] or r["out"]), "ops": [h, "table"]})
+            continue
+        t = Table(r["out"][1])
+        if not t.sane() or (max(t.handles) == 0xFFFF) != wraps:
+            res.failures.append({"key": "%s:top-handle-table" % pid, "what": "%s: real handles %s" % (name, t.handles), "ops": [h, "table"]})
+            continue
+        first = t.services[-1]["first"]
+        fixed = [bytes([0x04]) + le16(first) + le16(0xFFFF), bytes([0x04]) + le16(t.handles[-1]) + le16(0xFFFF),
+                 bytes([0x08]) + le16(4) + le16(0xFFFF) + le16(0x2803), bytes([0x10]) + le16(first) + le16(0xFFFF) + le16(0x2800),
+                 bytes([0x10]) + le16(1) + le16(0xFFFF) + le16(0x2800), bytes([0x06]) + le16(first) + le16(0xFFFF) + le16(0x2800) + le16(0x1802),
+                 bytes([0x06]) + le16(1) + le16(0xFFFF) + le16(0x2800) + le16(0x1802), bytes([0x04]) + le16(1) + le16(0xFFFF)]
+        pdus = [(23, p) for p in fixed] + gen_pdus(t, ctx.rng, pid, 40, False)
+        sessions.append([h, "table"] + ["pdu %d %s" % (m, p.hex()) for m, p in pdus])
+        meta.append((k, name, wraps, t, pdus, h))
+    for (k, name, wraps, t, pdus, h), r in zip(meta, ctx.run_impl(sessions)):
+        res.sessions += 1
+        res.evaluations += len(r["out"])
+        res.count("top_handle_server_%d_requests" % k, len(pdus))
+        if r["crash"]:
+            res.failures.append({"key": "%s:crash:%s" % (pid, r["crash"].split(" @")[0]), "what": r["crash"], "ops": [h]})
+        for (mtu, p), out in zip(pdus, r["out"][2:]):
+            rsp = bytes.fromhex(out) if out not in ("-", "bad-op") and not out.startswith("<") else b""
+            for key, what in monitor(t, mtu, p, rsp):
+                if wraps:
+                    key = "%s:last-handle-0xffff:%s" % (pid, ":".join(key.split(":")[1:3]))
+                res.failures.append({"key": key, "what": "top-handle server %d (%s) mtu %d request %s -> %s: %s" % (k, name, mtu, p.hex(), rsp.hex(), what),
+                                     "ops": [h, "pdu %d %s" % (mtu, p.hex())],
+                                     "input": "server with %s, MTU %d, request %s" % (name, mtu, p.hex())})
+
+
+# ---------------------------------------------------------------------------------------------
 def run(ctx, pid):
     F.check_header_current()
     res = Result()
@@ -399,6 +448,7 @@ def run(ctx, pid):
                 res.failures.append({"key": key, "what": "S%d mtu %d request %s -> %s: %s" % (k, mtu, p.hex(), rsp.hex(), what),
                                      "ops": [heads[k], "pdu %d %s" % (mtu, p.hex())],
                                      "input": "server type S%d (%s), MTU %d, request %s" % (k, fam[k][0], mtu, p.hex())})
+    top_handle_probe(ctx, pid, monitor, res)
     res.exhaustive = False
     res.samples = [" ; ".join(x[:80] for x in s[:5]) for s in sessions[-2:]]
     res.extra["server_types_used"] = sorted(tables.keys())
@@ -408,21 +458,34 @@ def run(ctx, pid):
 P = "BluetoeModel.AttDiscovery."
 H = "BluetoeModel.AttHandles."
 C02_THEOREMS = [P + t for t in ("range_check", "slice_eq_inRange", "find_information_spec", "find_information_prefix_partial",
-                                "read_by_type_spec", "matches_t16", "mkFilter_16", "read_by_group_only_primary", "ofDecl_WF")] + \
+                                "read_by_type_spec", "matches_t16", "mkFilter_16", "read_by_group_only_primary", "ofDecl_WF",
+                                # enumeration ("repeat from last+1 enumerates every matching attribute exactly once")
+                                "clientLoop_complete", "findInformation_view", "readByType_view", "readByGroupType_view",
+                                "find_information_enumerate_all", "find_information_enumerate_uniform",
+                                "read_by_type_enumerate_all", "read_by_type_enumerate_uniform",
+                                "read_by_group_enumerate_all", "read_by_group_complete", "groupCut_prefix")] + \
                [H + t for t in ("handles_strict_mono", "handles_nonzero", "first_index_count")]
 C02_WITNESSES = [P + t for t in ("find_information_skips_witness", "read_by_type_unreadable_witness", "read_by_type_128bit_witness",
-                                 "t128_never_matches", "read_by_type_skips_witness")]
+                                 "t128_never_matches", "read_by_type_skips_witness",
+                                 "find_information_enumerate_witness", "find_information_noskip_fails_witness",
+                                 "read_by_type_enumerate_unreadable_witness", "read_by_type_enumerate_size_witness",
+                                 "read_by_type_noskip_fails_witness")]
 C03_THEOREMS = [P + t for t in ("read_by_group_only_primary", "find_by_type_value_only_primary", "groupLoop_sound", "findLoop_sound",
-                                "range_check", "ofDecl_WF")]
+                                "range_check", "ofDecl_WF",
+                                # completeness
+                                "read_by_group_complete", "groupCut_prefix", "groupCut_head", "groupLoop_out", "readByGroupType_view",
+                                "read_by_group_enumerate_all", "primaries_sorted")]
+IMPORTS = ["BluetoeModel.AttDiscovery.Props", "BluetoeModel.AttDiscovery.PropsEnum", "BluetoeModel.AttDiscovery.PropsGroup",
+           "BluetoeModel.AttHandles.Props"]
 
 PROPS = {
     "C02": dict(
         theorems=C02_THEOREMS, witnesses=C02_WITNESSES,
-        imports=["BluetoeModel.AttDiscovery.Props", "BluetoeModel.AttHandles.Props"],
+        imports=IMPORTS,
         run=lambda ctx, replay_path=None: run(ctx, "C02"),
         level="proof",
-        technique="Lean 4 proof over every strictly ascending attribute table (index interval = requested handle range; selection loops are sublists / prefixes of it) + differential correspondence of the four discovery handlers with the real server<>::l2cap_input",
-        level_text="For the fixed handlers (fixes/attdisc-01..03), every well-formed table, start <= end, MTU >= 23: the index interval computed from the two handles is exactly the set of attributes with start <= handle <= end and never leaves the table; Find Information answers Attribute Not Found iff that set is empty and otherwise returns a sublist of it (in-range, ascending, own type) starting with its first element, a prefix when UUID sizes are uniform; Read By Type returns handles of in-range attributes of the requested type in ascending order and is never Attribute Not Found while a readable match exists; Read By Group Type returns only in-range services. Partial: the enumeration sentence and 'not found only when none exists' fail for mixed UUID/value sizes, unreadable attributes and true 128-bit types (witness theorems, known findings); the iteration 'repeat from last+1' itself is not mechanised (prefix + progress lemmas are).",
+        technique="Lean 4 proof over every strictly ascending attribute table (index interval = requested handle range; selection loops are sublists / prefixes of it; client sub-procedure loop proved complete against any prefix responder) + differential correspondence of the four discovery handlers with the real server<>::l2cap_input",
+        level_text="For the fixed handlers (fixes/attdisc-01..03), every well-formed table, start <= end, MTU >= 23: the index interval computed from the two handles is exactly the set of attributes with start <= handle <= end and never leaves the table; Find Information answers Attribute Not Found iff that set is empty and otherwise returns a sublist of it (in-range, ascending, own type) starting with its first element; Read By Type returns handles of in-range attributes of the requested type in ascending order and is never Attribute Not Found while a readable match exists; Read By Group Type returns only in-range services. Enumeration sentence: the client loop 'request, continue behind the last returned handle / end group handle, stop at an Error Response' is mechanised (clientLoop) over the modelled handlers (views proved byte-equal to the handlers) and proved to return exactly the matching attributes, each once, ascending, with at most end+1-start requests: for Read By Group Type unconditionally (read_by_group_enumerate_all; the handler stops at a UUID size change instead of skipping), for Find Information / Read By Type under the precise per-request no-skip condition (FindInformationNoSkip / ReadByTypeNoSkip = the selection loop returns a prefix) and hence for uniform UUID size / all matching values readable and of one length. Partial: the sentence is false for mixed UUID sizes, unreadable or differently sized matching values (find_information_enumerate_witness, read_by_type_enumerate_unreadable_witness, read_by_type_enumerate_size_witness; known findings) and 'not found only when none exists' fails for unreadable attributes and true 128-bit types. Not proved: the client's byte parser (the loop consumes the item list of which the response is proved to be the encoding); declarations whose last handle is 0xFFFF are outside the model (uint16 end_handle wraps) and are checked on the real code only: known findings C02:last-handle-0xffff:*.",
         level_note="Trusted: Lean kernel + standard axioms; model = code as far as the differential check samples it (24 server types x boundary handle pairs x all present types x MTUs); write_128bit_uuid is modelled as 'the entry's UUID' (checked differentially); attribute values are static in the harness.",
         design_ref="§5 C02",
         assumptions=["fixes/attdisc-01-end-handle-in-gap, -03-read-by-type-0x0001 applied (the check reports a VIOLATION on the unpatched tree)",
@@ -430,11 +493,11 @@ PROPS = {
     ),
     "C03": dict(
         theorems=C03_THEOREMS, witnesses=[],
-        imports=["BluetoeModel.AttDiscovery.Props", "BluetoeModel.AttHandles.Props"],
+        imports=IMPORTS,
         run=lambda ctx, replay_path=None: run(ctx, "C03"),
         level="proof",
         technique="Lean 4 loop-invariant proof over every table and service list (every reported group is a declared service whose declaration attribute has type «Primary Service», in range, with its real last handle) + differential correspondence with the real handlers",
-        level_text="For the fixed handlers (fixes/attdisc-01, -02): every group in a Read By Group Type «Primary Service» response and every range in a Find By Type Value «Primary Service» response is, for every table, service list, range and MTU, a declared service whose declaration attribute has type 0x2800 (never a secondary service), lies in the requested range, carries the service's UUID / the requested UUID and ends at the handle of the service's last attribute. Partial: completeness ('all primary services in range are reported, in order, up to the MTU') is checked by the monitor on the real code but not proved.",
+        level_text="For the fixed handlers (fixes/attdisc-01, -02): every group in a Read By Group Type «Primary Service» response and every range in a Find By Type Value «Primary Service» response is, for every table, service list, range and MTU, a declared service whose declaration attribute has type 0x2800 (never a secondary service), lies in the requested range, carries the service's UUID / the requested UUID and ends at the handle of the service's last attribute (soundness). Completeness, Read By Group Type: for every table whose service list partitions it (Db.SvcWF), the response is exactly groupCut(MTU-2) of the declared primary services whose first handle is in range - a non-empty prefix ending only at a service UUID of the other size or when the MTU is used up, nothing skipped - and Attribute Not Found iff there is none (read_by_group_complete, groupCut_prefix, groupCut_head); the Discover All Primary Services loop returns every primary service in range exactly once, in order (read_by_group_enumerate_all). Partial: completeness of Find By Type Value is checked by the monitor on the real code but not proved; declarations whose last handle is 0xFFFF are outside the model: known findings C03:last-handle-0xffff:*.",
         level_note="Trusted: Lean kernel + standard axioms; model = code as far as the differential check samples it; the secondary_service<> struct form does not compile inside a server, only service<…, is_secondary_service> is in the family.",
         design_ref="§5 C03",
         assumptions=["fixes/attdisc-01-end-handle-in-gap and -02-secondary-services applied (the check reports a VIOLATION on the unpatched tree)"],
